@@ -39,7 +39,7 @@ func C02(c *run.Ctx) {
 		w.AddClient(world.ClientSpec{ID: "pub-e", Public: true, RedirectURIs: []string{"https://app-e.example/cb"},
 			GrantTypes: []string{"authorization_code", "refresh_token"}, ResponseTypes: world.AllResponseTypes,
 			Scopes: []string{"openid", "offline", "fosite", "photos", "profile"}, Audience: []string{"https://api.example/c"}})
-		s := sim.New(w, c, "code-binding", "code-binding-error-class", "rightful-redeem-refused", "alive:expired", "payload", "failed-attempt-wrote-state", "code-twice")
+		s := sim.New(w, c, "code-binding", "code-binding-error-class", "rightful-redeem-refused", "alive:expired", "payload", "failed-attempt-wrote-state", "code-twice", "requested-scope-changed", "requested-audience-changed")
 		s.CaseID = id
 		for k := r.Intn(6); k > 0; k-- {
 			randStep(s, r, defaultWeights)
